@@ -25,7 +25,7 @@ FILEMAP = {
     "zduplicate.go": ["C20"],
     "sanitize.go": ["C20"],
     "ztypes.go": ["C16", "C08", "C01"],
-    "zmsg.go": ["C01", "C02"],
+    "zmsg.go": ["C01", "C02", "C04", "C03"],
     "svcb.go": ["C01", "C02", "C05", "C16", "C20", "C08"],
     "edns.go": ["C01", "C02", "C16", "C08"],
     "privaterr.go": ["C01", "C02", "C16"],
